@@ -184,6 +184,8 @@ class LayoutScenario(explore.Scenario):
                 ["ivs", "S2", "update", ["B1", "B2"]],
                 ["ivs", "S1", "clear", None], ["ivs", "S1", "update", ["B4"]],
                 ["ivs", "S1", "discard", "B1"], ["ivs", "S2", "add", "B1"],
+                ["blocks", "B1", "remove", "K1"], ["blocks", "B1", "pop", None],
+                ["ivs", "S1", "remove", "B1"], ["ivs", "S1", "pop", None],
                 # operands that are live owning collections of another parent
                 ["blocks", "B2", "ior_live", "B1"],
                 ["blocks", "B1", "update_live", "B2"],
@@ -200,6 +202,11 @@ class LayoutScenario(explore.Scenario):
             out.append(["lookup", sc])
         out.append(["save_load"])
         return out
+
+    def prefix_ok(self, op):
+        # which element pop() takes is not determined: checked as a
+        # transition, never used as a prefix
+        return not (len(op) > 2 and op[2] == "pop")
 
     def apply(self, w, op):
         O = w.objs
@@ -224,6 +231,12 @@ class LayoutScenario(explore.Scenario):
                     coll.clear()
                 elif op[2] == "update":
                     coll.update([O[x] for x in op[3]])
+                elif op[2] in ("remove", "pop"):
+                    try:
+                        coll.remove(O[op[3]]) if op[2] == "remove" \
+                            else coll.pop()
+                    except KeyError:
+                        pass  # not a member / empty: as for the built-in
                 elif op[2] == "update_gen":
                     coll.update(O[x] for x in op[3])
                 elif op[2].endswith("_live"):
